@@ -17,7 +17,6 @@ CRATES = ['breakpad_symbols', 'minidump', 'minidump_common', 'minidump_processor
 CONFIGS = {
     'default': ['--workspace'],
     'symbols-nohttp': ['-p', 'breakpad-symbols', '--no-default-features'],
-    'processor-nodefault': ['-p', 'minidump-processor', '--no-default-features'],
 }
 
 
@@ -108,8 +107,6 @@ def ensure_facts(config='default', repo=REPO, log=None):
         want = CRATES if config == 'default' else []
         if config == 'symbols-nohttp':
             want = ['breakpad_symbols']
-        if config == 'processor-nodefault':
-            want = ['minidump_processor']
         have = os.listdir(fdir)
         for c in want:
             if not any(f.startswith(c + '.') and f.endswith('.json') for f in have):
